@@ -313,3 +313,13 @@ class Concretizer:
                                  user_admins=[[self.atom(k, 'key'), self.int(d), self.bool(e)] for k, d, e in g.user_admins],
                                  rights=[[self.atom(en, 'ent'), self.int(d), self.bool(ms), self.bool(ma)] for en, d, ms, ma in g.rights])
                             for g in ev.groups])
+
+
+def size_relation(m, size, max_size):
+    """'lt' | 'eq' | 'gt' : how the row size compares to the limit in the model (the native replay
+    reproduces the relation with the row's real serialised size)"""
+    if z3.is_true(m.eval(z3.UGT(size.z(), max_size.z()), model_completion=True)):
+        return 'gt'
+    if z3.is_true(m.eval(size.z() == max_size.z(), model_completion=True)):
+        return 'eq'
+    return 'lt'
